@@ -51,7 +51,7 @@ def run_mc(tier):
     out = {}
     for name, consts, invs, props, spec, deadlock, served in mc_configs(tier):
         key = hashlib.sha256(json.dumps([spec_h, name, consts, invs, props, spec, deadlock], sort_keys=True).encode()).hexdigest()[:16]
-        cp = os.path.join(CACHE, "results", "mc_%s_%s.json" % (name, key))
+        cp = os.path.join(RESULTS, "mc_%s_%s.json" % (name, key))
         if os.path.exists(cp):
             out[name] = json.load(open(cp))
             continue
@@ -223,7 +223,7 @@ NONTRIVIAL = {
 
 def suite(tier, seed):
     key = "engine_%s_%s_%s_%d" % (repo_hash(), verif_hash(), tier, seed)
-    cp = os.path.join(CACHE, "results", key + ".json")
+    cp = os.path.join(RESULTS, key + ".json")
     if os.path.exists(cp):
         log("engine suite: cached result", key)
         return json.load(open(cp))
@@ -234,13 +234,32 @@ def suite(tier, seed):
         build_harness()
         mc = run_mc(tier)
         groups = make_jobs(tier, seed)
-        tag = "e%s%d" % (tier[0], seed)
+        tag = "e%s%d_%d" % (tier[0], seed, os.getpid())
         jobs = shard(groups, NCPU, seed, tag)
         log("engine suite: %d zv jobs" % len(jobs))
         with cf.ThreadPoolExecutor(NCPU) as ex:
             zres = list(ex.map(run_zv, jobs))
         t1 = time.time()
         log("engine suite: harness done in %.0fs" % (t1 - t0))
+        # real-binary leg: the unmodified main() with real shells, real signals
+        import bb
+        build_traced()
+        scen = bb.engine_scenarios(tier, seed)
+        with cf.ThreadPoolExecutor(NCPU) as ex:
+            bres = list(ex.map(bb.run_engine_scenario, scen))
+        bbname = tag + "_realbin"
+        with open(os.path.join(CACHE, "jobs", bbname + ".ndjson"), "w") as f:
+            for b in bres:
+                f.write("\n".join(b["raw"]) + "\n")
+        jobs.append(("realbin", bbname, None, {"configs": [b["scenario"]["cfg"] for b in bres]}))
+        zres.append({"label": "realbin", "name": bbname, "rc": 0, "tail": "",
+                     "summary": {"runs": [{"cfg": b["scenario"]["cfg"]["id"], "label": "realbin",
+                                           "status": "timeout" if b["timed_out"] else "exit%s" % b["status"],
+                                           "steps": [b["scenario"]["name"], json.dumps(b["scenario"]["bodies"]),
+                                                     json.dumps(b["scenario"]["actions"]), b["stderr_tail"][-300:]]}
+                                          for b in bres]}})
+        log("engine suite: real binary leg done in %.0fs (%d scenarios)" % (time.time() - t1, len(scen)))
+        t1 = time.time()
         with cf.ThreadPoolExecutor(NCPU) as ex:
             vres = list(ex.map(lambda z: validate_obs(z["name"]), zres))
         log("engine suite: trace validation done in %.0fs" % (time.time() - t1))
@@ -278,6 +297,7 @@ def suite(tier, seed):
                 r = runs[k] if k < len(runs) else {"cfg": "?", "steps": []}
                 res["violations"].append({"prop": viol["prop"], "sig": viol["sig"], "group": label, "job": name,
                                           "cfg": cfgs.get(r["cfg"]), "steps": r["steps"], "status": r.get("status"),
+                                          "confirmed": label == "realbin",
                                           "params": {k2: job.get(k2) for k2 in ("max_changes", "signals", "max_steps")}})
         res["nontrivial"] = {p: len(s) for p, s in seen_nt.items()}
         res["wall_s"] = round(time.time() - t0, 1)
